@@ -2,6 +2,7 @@
 //   daemon_driver mode=c16 seed=S n=N [only=K verbose=1] [exh=1 from=A to=B] [mqtttopic=T]
 #include "daemon_sim.h"
 #include <dirent.h>
+#include <limits.h>
 #include <algorithm>
 
 namespace ebusd {
@@ -571,6 +572,364 @@ static void runLevels(const vf::Args& a) {
   st.n["evaluations"] += cnt; st.n["checklevel_pairs"] += cnt; st.n["checklevel_granting_pairs"] += yes;
 }
 
+
+// ---------------------------------------------------------------------------------------------------------------------
+// C18 (a): command line splitting
+/** reference: blanks separate (repeated blanks once); a token starting with a quote character extends up to the first
+ *  occurrence of that quote character that ends a token (is followed by a blank or the end); quotes are removed */
+static std::vector<std::string> refSplit(const std::string& line, bool* unterminated = nullptr) {
+  std::vector<std::string> out;
+  if (unterminated) *unterminated = false;
+  size_t n = line.size(), i = 0;
+  while (i < n) {
+    if (line[i] == ' ') { i++; continue; }
+    if (line[i] == '"' || line[i] == '\'') {
+      char q = line[i];
+      size_t j = i + 1;
+      bool closed = false;
+      for (; j < n; j++) if (line[j] == q && (j + 1 == n || line[j + 1] == ' ')) { closed = true; break; }
+      out.push_back(line.substr(i + 1, j - (i + 1)));
+      i = closed ? j + 1 : n;
+      if (!closed && unterminated) *unterminated = true;
+      continue;
+    }
+    size_t j = line.find(' ', i);
+    if (j == std::string::npos) j = n;
+    out.push_back(line.substr(i, j - i));
+    i = j;
+  }
+  return out;
+}
+static std::string showArgs(const std::vector<std::string>& v) { std::string s = "["; for (auto& a : v) s += "<" + a + ">"; return s + "]"; }
+
+static bool splitCase(Rng& r, const std::string& line, const std::vector<std::string>* expectArgs, const std::string& tag) {
+  RequestImpl req(false);
+  // delivered in pieces, with or without CR
+  std::string wire = line + (r.chance(1, 2) ? "\r\n" : "\n");
+  size_t pos = 0; bool complete = false;
+  while (pos < wire.size()) {
+    size_t len = r.chance(1, 3) ? wire.size() - pos : (size_t)r.range(1, 4);
+    if (len > wire.size() - pos) len = wire.size() - pos;
+    bool c = req.add(wire.substr(pos, len).c_str());
+    pos += len;
+    if (c && pos < wire.size()) { violation("c18-line-complete-too-early", tag + " line=<" + line + "> after " + std::to_string(pos) + " bytes"); return false; }
+    complete = c;
+  }
+  if (!complete) { violation("c18-line-not-complete", tag + " line=<" + line + ">"); return false; }
+  std::vector<std::string> got;
+  req.split(&got);
+  bool unterminated = false;
+  std::vector<std::string> ref = refSplit(line, &unterminated);
+  if (unterminated && got.size() == ref.size() && !ref.empty()) {
+    // no token ends with the opening quote: the statement does not say where the argument ends; trailing blanks are not judged
+    st.n["unterminated_quote_lines"]++;
+    auto rtrim = [](std::string x) { while (!x.empty() && x.back() == ' ') x.pop_back(); return x; };
+    got.back() = rtrim(got.back()); ref.back() = rtrim(ref.back());
+  }
+  st.n["evaluations"]++;
+  if (ref.size() >= 2) st.n["distinct_nontrivial"]++;
+  if (got != ref) { violation("c18-split-differs", tag + " line=<" + line + "> split=" + showArgs(got) + " expected=" + showArgs(ref)); return false; }
+  if (expectArgs && ref != *expectArgs) { violation("c18-split-differs", tag + " line=<" + line + "> reference split " + showArgs(ref) + " differs from the encoded arguments " + showArgs(*expectArgs)); return false; }
+  return true;
+}
+
+static void runC18a(const vf::Args& a) {
+  static const char AL[] = {'a', 'b', ' ', '"', '\''};
+  int maxLen = (int)a.num("len", 7);
+  long from = (long)a.num("from", 0), stride = (long)a.num("stride", 1);
+  Rng r(g_seed * 31 + 7);
+  long idx = 0, fails = 0;
+  for (int len = 0; len <= maxLen && fails < 20; len++) {
+    long total = 1; for (int i = 0; i < len; i++) total *= 5;
+    for (long x = 0; x < total && fails < 20; x++, idx++) {
+      if (idx % stride != from) continue;
+      std::string line; long y = x;
+      for (int i = 0; i < len; i++) { line += AL[y % 5]; y /= 5; }
+      if (!splitCase(r, line, nullptr, "exh")) fails++;
+    }
+  }
+  st.n["exhaustive_lines"] += st.n["evaluations"];
+  // argument lists encoded by a client
+  long n = (long)a.num("n", 20000);
+  for (long i = 0; i < n && fails < 20; i++) {
+    std::vector<std::string> args; std::string line;
+    bool ok = true;
+    int na = r.range(1, 5);
+    for (int k = 0; k < na && ok; k++) {
+      std::string arg; for (int l = r.range(0, 6); l > 0; l--) arg += r.chance(1, 3) ? AL[r.range(2, 4)] : AL[r.range(0, 1)];
+      bool needQuote = arg.empty() || arg.find(' ') != std::string::npos || arg[0] == '"' || arg[0] == '\'';
+      std::string enc = arg;
+      if (needQuote) {
+        ok = false;
+        for (char q : r.chance(1, 2) ? std::string("\"'") : std::string("'\"")) {
+          bool bad = !arg.empty() && arg.back() == q;
+          for (size_t p = 0; p + 1 < arg.size(); p++) if (arg[p] == q && arg[p + 1] == ' ') bad = true;
+          if (!bad) { enc = std::string(1, q) + arg + q; ok = true; break; }
+        }
+      }
+      if (!ok) break;
+      if (k) line += std::string((size_t)r.range(1, 3), ' ');
+      line += enc;
+      args.push_back(arg);
+    }
+    if (!ok) { st.n["unencodable_argument_lists"]++; continue; }
+    if (r.chance(1, 4)) line = std::string((size_t)r.range(1, 2), ' ') + line;
+    if (r.chance(1, 4)) line += std::string((size_t)r.range(1, 2), ' ');
+    st.n["encoded_argument_lists"]++;
+    if (!splitCase(r, line, &args, "enc")) fails++;
+  }
+}
+
+// ---------------------------------------------------------------------------------------------------------------------
+// C18 (b): HTTP percent decoding and root confinement
+struct Www {
+  std::string base, root, rootReal;
+  std::map<std::string, std::string> inside;    // relative path -> content
+  void mk(const std::string& dir) { std::string cmd = "mkdir -p '" + dir + "'"; if (system(cmd.c_str())) {} }
+  void build() {
+    base = tmpDir() + "/www"; root = base + "/htdocs/root";
+    mk(root);
+    // outside the root: everything carries the marker
+    for (const char* f : {"/index.html", "/secret.html", "/htdocs/index.html", "/htdocs/secret.html", "/htdocs/a/index.html", "/htdocs/e/index.html", "/htdocs/rootx/index.html",
+                          "/htdocs/%2e/index.html", "/htdocs/^/index.html"}) {
+      std::string p = base + f; mk(p.substr(0, p.rfind('/')));
+      writeFile(p, std::string("OUTSIDE-ROOT ") + f);
+    }
+    writeFile(tmpDir() + "/index.html", "OUTSIDE-ROOT tmp index");
+    // inside: directories whose names are reachable by decoding once (and literal ones that look like escapes)
+    for (const char* d : {"", "/a", "/e", "/a/e", "/^", "/_", "/U", "/R", "/Z", "/*", "/%2e", "/%2f", "/%25", "/%2e%2e", "/%", "/a/%2e", "/.a", "/a.", "/a/a", "/a/f", "/f", "/E", "/2", "/5", "/a b"}) {
+      std::string dir = root + d; mk(dir);
+      std::string rel = std::string(d) + "/index.html";
+      inside[rel] = "INSIDE " + rel;
+      writeFile(root + rel, inside[rel]);
+    }
+    for (const char* f : {"/a.html", "/a/b.js", "/e.css", "/pic.png", "/x.jpeg", "/d.json", "/notes.txt", "/a/readme", "/a b.html", "/a/c.yaml", "/t.csv", "/s.svg", "/p.jpg", "/x.html5", "/ee.e"}) {
+      inside[f] = std::string("INSIDE ") + f;
+      writeFile(root + f, inside[f]);
+    }
+    char rp[PATH_MAX];
+    rootReal = realpath(root.c_str(), rp) ? rp : root;
+  }
+};
+
+static bool hexDigit(char c) { return (c >= '0' && c <= '9') || (c >= 'a' && c <= 'f') || (c >= 'A' && c <= 'F'); }
+static int hexVal(char c) { return c <= '9' ? c - '0' : (c | 0x20) - 'a' + 10; }
+/** RFC 3986 percent decoding, once, left to right; *malformed when a '%' is not followed by two hex digits */
+static std::string refDecode(const std::string& s, bool* malformed) {
+  std::string o; *malformed = false;
+  for (size_t i = 0; i < s.size(); i++) {
+    if (s[i] != '%') { o += s[i]; continue; }
+    if (i + 2 < s.size() + 0 && i + 2 <= s.size() - 1 + 0 && hexDigit(s[i + 1]) && hexDigit(s[i + 2])) { o += (char)(hexVal(s[i + 1]) * 16 + hexVal(s[i + 2])); i += 2; }
+    else { *malformed = true; o += s[i]; }
+  }
+  return o;
+}
+static const char* EXTS[] = {"html", "css", "js", "png", "jpg", "jpeg", "svg", "json", "yaml", "csv"};
+
+struct HttpJudge {
+  Www& www; World& d;
+  long fails = 0;
+  HttpJudge(Www& w_, World& d_) : www(w_), d(d_) {}
+  void one(const std::string& uri, const std::string& tag) {
+    std::string line = "GET " + uri + " HTTP/1.1";
+    std::string hu; RequestMode hm; memset(&hm, 0, sizeof(hm));
+    vf::current(tag + " " + line);
+    RequestImpl req(true);
+    std::string wire = line + "\r\nHost: x\r\n\r\n";
+    if (!req.add(wire.c_str())) { violation("c18-http-request-not-complete", tag + " " + line); fails++; return; }
+    bool connected = true, reload = false; std::ostringstream out;
+    d.loop->decodeRequest(&req, &connected, &hm, &hu, &reload, &out);
+    std::string rep = out.str();
+    st.n["evaluations"]++;
+    size_t he = rep.find("\r\n\r\n");
+    std::string head = he == std::string::npos ? rep : rep.substr(0, he), body = he == std::string::npos ? "" : rep.substr(he + 4);
+    bool is200 = head.compare(0, 12, "HTTP/1.0 200") == 0;
+    st.hist["http_status"][head.substr(0, head.find('\r')).substr(0, 16)]++;
+    if (rep.find("OUTSIDE-ROOT") != std::string::npos) { violation("c18-http-served-outside-root", tag + " '" + uri + "' returned " + vf::oneline(body).substr(0, 80)); fails++; return; }
+    // reference
+    std::string path = uri.substr(0, uri.find('?'));
+    bool malformed;
+    std::string p = refDecode(path, &malformed);
+    if (malformed) { st.n["malformed_escape_uris"]++; return; }
+    if (p.find('?') != std::string::npos || p.find('\n') != std::string::npos) { st.n["decoded_separator_uris"]++; return; }   // not judged (see assumptions)
+    bool legal = !p.empty() && p[0] == '/' && p.find("//") == std::string::npos && p.find("..") == std::string::npos;
+    std::string rel = p;
+    if (!rel.empty() && rel.back() == '/') rel += "index.html";
+    bool ext = false;
+    size_t dot = rel.find_last_of('.');
+    size_t slash = rel.find_last_of('/');
+    if (dot != std::string::npos && (slash == std::string::npos || dot > slash)) for (const char* e : EXTS) if (rel.substr(dot + 1) == e) ext = true;
+    // the file system decides which file a legal path names ("." segments)
+    auto it = www.inside.end();
+    if (legal && p.find('\0') == std::string::npos) {
+      char rp[PATH_MAX];
+      if (realpath((www.root + rel).c_str(), rp)) {
+        std::string res = rp;
+        if (res.compare(0, www.rootReal.size() + 1, www.rootReal + "/") == 0) it = www.inside.find(res.substr(www.rootReal.size()));
+      }
+    }
+    bool expect200 = legal && ext && it != www.inside.end();
+    if (expect200) st.n["distinct_nontrivial"]++;
+    if (path.find('%') != std::string::npos && expect200) st.n["served_after_decoding"]++;
+    if (is200 && !expect200) {
+      violation("c18-http-serves-unexpected", tag + " '" + uri + "' (decoded once: '" + p + "') answered 200 with " + vf::oneline(body).substr(0, 80)); fails++; return; }
+    if (!is200 && expect200) { violation("c18-http-not-decoded-once", tag + " '" + uri + "' (decoded once: '" + p + "' = existing file) answered " + head.substr(0, 30)); fails++; return; }
+    if (is200 && body != it->second) { violation("c18-http-wrong-file", tag + " '" + uri + "' (decoded once: '" + p + "') returned " + vf::oneline(body).substr(0, 80)); fails++; return; }
+  }
+};
+
+static std::string pctEncode(Rng& r, const std::string& s, int mode) {
+  // mode 0: unreserved left alone sometimes, 1: every char, upper/lower hex mixed
+  std::string o; char b[8];
+  for (unsigned char c : s) {
+    bool enc = mode == 1 || r.chance(1, 3) || c == ' ' || c == '%' || c == '^' || c == '*';
+    if (c == '/' && mode == 0 && !r.chance(1, 6)) enc = false;
+    if (enc) { snprintf(b, sizeof(b), r.chance(1, 2) ? "%%%02x" : "%%%02X", c); o += b; } else o += (char)c;
+  }
+  return o;
+}
+
+static void runC18b(const vf::Args& a) {
+  Www www; www.build();
+  WorldOptions wo; wo.htmlPath = www.root;
+  World d(wo);
+  HttpJudge j(www, d);
+  static const char AL[] = {'%', '2', '5', 'e', 'E', 'f', '/', '.', '?', 'a'};
+  int maxLen = (int)a.num("len", 5);
+  long from = (long)a.num("from", 0), stride = (long)a.num("stride", 1), idx = 0;
+  for (int len = 0; len <= maxLen && j.fails < 20; len++) {
+    long total = 1; for (int i = 0; i < len; i++) total *= 10;
+    for (long x = 0; x < total && j.fails < 20; x++, idx++) {
+      if (idx % stride != from) continue;
+      std::string uri = "/"; long y = x;
+      for (int i = 0; i < len; i++) { uri += AL[y % 10]; y /= 10; }
+      j.one(uri, "exh");
+      if (len <= 3 && x % 3 == 0) j.one(uri.substr(1).empty() ? "a" : uri.substr(1), "exh-noslash");
+    }
+  }
+  st.n["exhaustive_uris"] += st.n["evaluations"];
+  // longer ones: real and escaping paths, encoded once or twice
+  Rng r(g_seed * 131 + 3);
+  long n = (long)a.num("n", 20000);
+  std::vector<std::string> rels; for (auto& kv : www.inside) rels.push_back(kv.first);
+  static const std::vector<std::string> ESC = {"/../index.html", "/../secret.html", "/../../index.html", "/a/../../index.html", "/a/../../secret.html", "//index.html", "/../a/index.html",
+    "/a/../..//secret.html", "/..", "/../", "/./../secret.html", "/a/e/../../../secret.html", "/../rootx/index.html", "/../root/a.html", "/a//b.js", "/../%2e/index.html", "/../^/index.html",
+    "/../../../../../../../../etc/passwd", "/../../../../../../../../etc/hostname"};
+  for (long i = 0; i < n && j.fails < 20; i++) {
+    std::string pth = r.chance(1, 2) ? r.pick(rels) : r.pick(ESC);
+    if (pth.size() > 11 && pth.compare(pth.size() - 11, 11, "/index.html") == 0 && r.chance(1, 2)) pth.resize(pth.size() - 10);
+    std::string uri;
+    int how = r.range(0, 5);
+    if (how == 0) uri = pth;
+    else if (how <= 2) uri = pctEncode(r, pth, 0);
+    else if (how == 3) uri = pctEncode(r, pth, 1);
+    else { uri = pctEncode(r, pctEncode(r, pth, how == 4 ? 0 : 1), 0); st.n["double_encoded_uris"]++; }
+    if (uri.find("%3f") != std::string::npos || uri.find("%3F") != std::string::npos) continue;
+    if (r.chance(1, 8)) uri += "?x=1&y=%2e%2e";
+    j.one(uri, "rnd");
+  }
+}
+
+// ---------------------------------------------------------------------------------------------------------------------
+// C18 (c): topic template formatting and matching
+static const std::vector<std::string> IDENTS = {"a", "b", "ab", "ba", "a.b", "a_b", "x", "xa", "ax", "a1", "s", "set", "get", "list", "y", "e", "ebusd"};
+
+static void runC18c(const vf::Args& a) {
+  Rng r(g_seed * 17 + 11);
+  static const std::vector<std::string> PRE = {"", "ebusd/", "e-", "x/y/", "/"}, SEP = {"/", "-x/", "/y-", "--", "/a/", "-"}, SUF = {"", "/s", "-"};
+  static const char* F[] = {"circuit", "name", "field"};
+  long fails = 0;
+  // all orders of all non-empty subsets
+  std::vector<std::vector<int>> orders;
+  int perm[6][3] = {{0, 1, 2}, {0, 2, 1}, {1, 0, 2}, {1, 2, 0}, {2, 0, 1}, {2, 1, 0}};
+  std::set<std::vector<int>> seen;
+  for (auto& p : perm) for (int k = 1; k <= 3; k++) { std::vector<int> o(p, p + k); if (seen.insert(o).second) orders.push_back(o); }
+  for (auto& o : orders) for (auto& pre : PRE) for (auto& suf : SUF) for (size_t s1 = 0; s1 < SEP.size(); s1++) for (size_t s2 = 0; s2 < SEP.size(); s2++) {
+    if (o.size() < 3 && s2 > 0) continue;
+    if (o.size() < 2 && s1 > 0) continue;
+    for (int braces = 0; braces < 2; braces++) {
+      std::string tmpl = pre;
+      for (size_t i = 0; i < o.size(); i++) {
+        if (i) tmpl += i == 1 ? SEP[s1] : SEP[s2];
+        tmpl += braces ? std::string("%{") + F[o[i]] + "}" : std::string("%") + F[o[i]];
+      }
+      tmpl += suf;
+      StringReplacer rep;
+      if (!rep.parse(tmpl, true, true)) { violation("c18-template-rejected", tmpl); fails++; continue; }
+      if (!rep.checkMatchability()) { violation("c18-template-not-matchable", tmpl); fails++; continue; }
+      st.n["templates"]++;
+      bool hasF[3] = {false, false, false}; for (int x : o) hasF[x] = true;
+      int per = (int)a.num("per", 40);
+      for (int k = 0; k < per && fails < 20; k++) {
+        std::string v[3] = {r.pick(IDENTS), r.pick(IDENTS), r.pick(IDENTS)};
+        std::map<std::string, std::string> values;
+        for (int x = 0; x < 3; x++) if (hasF[x]) values[F[x]] = v[x];
+        std::string topic = rep.get(values, true);
+        // expected text by construction
+        std::string exp = pre;
+        for (size_t i = 0; i < o.size(); i++) { if (i) exp += i == 1 ? SEP[s1] : SEP[s2]; exp += v[o[i]]; }
+        exp += suf;
+        st.n["evaluations"]++;
+        if (topic != exp) { violation("c18-topic-format", "template '" + tmpl + "' values " + v[0] + "," + v[1] + "," + v[2] + " gives '" + topic + "' expected '" + exp + "'"); fails++; continue; }
+        // as MqttHandler::notifyMqttTopic: strip the direction, then match
+        for (const char* dir : {"get", "set", "list"}) {
+          std::string full = topic + "/" + dir;
+          std::string mt = full.substr(0, full.rfind('/'));
+          std::string c, nm, f;
+          ssize_t m = rep.match(mt, &c, &nm, &f);
+          std::string got[3] = {c, nm, f};
+          bool ok = m >= 0;
+          for (int x = 0; x < 3; x++) if (hasF[x] ? got[x] != v[x] : !got[x].empty()) ok = false;
+          if (!ok) { violation("c18-topic-match", "template '" + tmpl + "' topic '" + full + "' built from (" + (hasF[0] ? v[0] : "") + "," + (hasF[1] ? v[1] : "") + "," + (hasF[2] ? v[2] : "") + ") matched as (" + c + "," + nm + "," + f + ") rc=" + std::to_string((long)m)); fails++; break; }
+        }
+        if (o.size() == 3) st.n["distinct_nontrivial"]++;
+      }
+    }
+  }
+}
+
+// C18 (c2): through the real MqttHandler: the message read/written on the stub bus is the one the topic was built for
+static void runC18m(const vf::Args& a) {
+  std::string mt = a.str("mqtttopic", "ebusd/%circuit/%name");
+  if (!mqttOption("mqttport", "1883") || !mqttOption("mqtttopic", mt.c_str())) { fprintf(stderr, "mqtt options rejected\n"); exit(2); }
+  StringReplacer topic; topic.parse(mt, true); topic.ensureDefault();
+  Rng r(g_seed * 19 + 1);
+  long n = (long)a.num("n", 30);
+  for (long ci = 0; ci < n; ci++) {
+    // messages: circuits x names from the identifier pool, unique IDs
+    struct M { std::string c, nme; int k; bool w; };
+    std::vector<M> ms; std::set<std::string> used;
+    std::string csv = "type,circuit,level,name,comment,qq,zz,pbsb,id,*name,part,type,divisor/values,unit,comment\n";
+    int k = 1;
+    for (int i = 0; i < 24; i++) {
+      M m{r.pick(IDENTS), r.pick(IDENTS), k, r.chance(1, 3)};
+      std::string key = m.c + "|" + m.nme + (m.w ? "|w" : "|r");
+      if (!used.insert(key).second) continue;
+      char b[200]; snprintf(b, sizeof(b), "%s,%s,,%s,,,08,b509,%02x%02x,v,,UCH,,,\n", m.w ? "w" : "r", m.c.c_str(), m.nme.c_str(), m.w ? 0x0e : 0x0d, k);
+      csv += b; ms.push_back(m); k++;
+    }
+    WorldOptions wo; wo.definitions = csv;
+    World d(wo);
+    if (d.loadResult != RESULT_OK || !d.mqttHandler) { violation("c18-world-not-loaded", std::string(getResultCode(d.loadResult)) + " " + d.loadError); return; }
+    d.proto->answer = [](const std::vector<uint8_t>& mb) -> std::vector<uint8_t> { if (mb.size() >= 7 && mb[5] == 0x0d) return {(uint8_t)(100 + mb[6])}; return {}; };
+    for (auto& m : ms) {
+      std::string t = topic.get(m.c, m.nme, "v") + (m.w ? "/set" : "/get");
+      size_t from = d.proto->sent.size(), pubFrom = d.mqtt->published.size();
+      vf::current("c18m " + mt + " " + t);
+      d.mqttHandler->notifyMqttTopic(t, m.w ? "7" : "");
+      st.n["evaluations"]++; st.n["distinct_nontrivial"]++;
+      bool ok = d.proto->sent.size() == from + 1 && d.proto->sent[from].master.size() >= 7 && d.proto->sent[from].master[6] == m.k && d.proto->sent[from].master[5] == (m.w ? 0x0e : 0x0d);
+      if (!ok) { violation("c18-topic-reaches-wrong-message", "template '" + mt + "' topic '" + t + "' for " + m.c + "/" + m.nme + (m.w ? " (write)" : " (read)") + " sent " +
+                           (d.proto->sent.size() > from ? hex(d.proto->sent[from].master) : std::string("nothing"))); break; }
+      // and the value is published under the topic of that message
+      bool pub = false;
+      for (size_t i = pubFrom; i < d.mqtt->published.size(); i++) if (d.mqtt->published[i].topic == topic.get(m.c, m.nme, "v") || d.mqtt->published[i].topic == topic.get(m.c, m.nme, "")) pub = true;
+      if (!pub && !m.w) { violation("c18-topic-reaches-wrong-message", "template '" + mt + "' topic '" + t + "': nothing published under the topic of " + m.c + "/" + m.nme); break; }
+    }
+    st.n["worlds"]++;
+  }
+}
+
 int main(int argc, char** argv) {
   vf::Args a(argc, argv);
   vf::installDeathCallback();
@@ -580,6 +939,10 @@ int main(int argc, char** argv) {
   std::string mode = a.str("mode", "c16");
   if (mode == "c16") runC16(a);
   else if (mode == "levels") runLevels(a);
+  else if (mode == "c18a") runC18a(a);
+  else if (mode == "c18b") runC18b(a);
+  else if (mode == "c18c") runC18c(a);
+  else if (mode == "c18m") runC18m(a);
   else { fprintf(stderr, "unknown mode\n"); return 2; }
   st.emit();
   if (!g_tmpDir.empty()) { std::string cmd = "rm -rf '" + g_tmpDir + "'"; if (system(cmd.c_str())) {} }
